@@ -390,6 +390,7 @@ def findings(ctx, model):
     ctx.known_finding(S.KNOWN_NEG_INDEX, S.neg_index_still_fails(G.Env()))
     ctx.known_finding(S.KNOWN_DREP_OA, S.drep_oa_still_fails(G.Env()))
     ctx.known_finding(S.KNOWN_CONV_JAX, S.conv_jax_still_fails(G.Env()))
+    ctx.known_finding(S.KNOWN_CIRC_RC, S.circ_rc_still_fails(G.Env()))
 
 
 def search(ctx, model, why):
